@@ -71,22 +71,21 @@ def run(ctx):
     # ---- 1. exhaustive model checking -------------------------------------------------------
     exh = [dict(S=[1, 1], M=2), dict(S=[2], M=2)]
     if not quick:
-        exh += [dict(S=[2, 1], M=1), dict(S=[1, 1, 1], M=1), dict(S=[2, 1], M=2), dict(S=[1, 1], M=3), dict(S=[3], M=2), dict(S=[2, 2], M=1)]
+        exh += [dict(S=[2, 1], M=1), dict(S=[1, 1, 1], M=1), dict(S=[1, 1], M=3), dict(S=[3], M=2), dict(S=[2, 2], M=1)]
 
     def mc(i_c):
         i, c = i_c
         cfg = ctx.path(f"mc{i}.cfg")
-        props = ["Termination"] if (not quick and i < 4) else []
+        props = ["Termination"] if (not quick and i < 3) else []
         open(cfg, "w").write(cfg_text(c, "Spec", INVS, props) + "CHECK_DEADLOCK TRUE\n")
         return c, tlc_must_pass(ctx, "proto/DistChanImpl", cfg=cfg, workers=3 if quick else 4, timeout=3000, coverage=True, tag=f"mc{i}")
 
     # ---- 2. behaviours (random walks of the module) ------------------------------------------
-    sims = [dict(S=[1, 1], M=2, RD=False, SD=False), dict(S=[2, 1], M=2), dict(S=[1, 1, 1], M=2, RD=False),
-            dict(S=[2, 2], M=2, SD=False)]
+    sims = [dict(S=[1, 1], M=2, RD=False, SD=False), dict(S=[2, 1], M=2), dict(S=[1, 1, 1], M=2, RD=False)]
     if not quick:
-        sims += [dict(S=[1], M=3), dict(S=[3, 1], M=1, RD=False), dict(S=[2, 2, 1], M=2, RD=False, SD=False), dict(S=[1, 1, 1], M=3), dict(S=[3, 3], M=2, RD=False),
+        sims += [dict(S=[2, 2], M=2, SD=False), dict(S=[1], M=3), dict(S=[3, 1], M=1, RD=False), dict(S=[2, 2, 1], M=2, RD=False, SD=False), dict(S=[1, 1, 1], M=3), dict(S=[3, 3], M=2, RD=False),
                  dict(S=[2, 1], M=3, SD=False), dict(S=[1, 2, 3], M=1), dict(S=[1, 1], M=3, RD=False, SD=False)]
-    n_per = 150 if quick else 2500
+    n_per = 200 if quick else 1000
 
     def sim(i_c):
         i, c = i_c
@@ -126,14 +125,14 @@ def run(ctx):
         raise ToolError(f"only {len(behaviours)} TLC behaviours generated")
     write_ndjson(ctx.path("behaviours.ndjson"), behaviours)
     # ---- 3. replay + random schedules on the real channels -----------------------------------
-    menu = [dict(nin=1, senders=[1]), dict(nin=1, senders=[2]), dict(nin=1, senders=[1, 1]), dict(nin=1, senders=[2, 1]),
-            dict(nin=1, senders=[1, 1, 1]), dict(nin=2, senders=[1, 1]), dict(nin=1, senders=[3, 1]), dict(nin=1, senders=[2, 2]),
-            dict(nin=1, pa=True, senders=[1, 1])]
+    menu = [dict(nin=1, senders=[2]), dict(nin=1, senders=[1, 1]), dict(nin=1, senders=[2, 1]),
+            dict(nin=1, senders=[1, 1, 1]), dict(nin=2, senders=[1, 1]), dict(nin=1, senders=[2, 2]),
+            dict(nin=1, pa=True, senders=[2, 1])]
     if not quick:
-        menu += [dict(nin=1, senders=[2, 2, 1]), dict(nin=1, senders=[3, 3]), dict(nin=1, senders=[1, 2, 3]), dict(nin=3, senders=[1, 1]),
+        menu += [dict(nin=1, senders=[1]), dict(nin=1, senders=[3, 1]), dict(nin=1, senders=[2, 2, 1]), dict(nin=1, senders=[3, 3]), dict(nin=1, senders=[1, 2, 3]), dict(nin=3, senders=[1, 1]),
                  dict(nin=2, senders=[2, 1]), dict(nin=1, senders=[3]), dict(nin=2, senders=[1, 1, 1])]
     write_ndjson(ctx.path("menu.ndjson"), menu)
-    nrandom = 600 if quick else 20000
+    nrandom = 450 if quick else 8000
     summary, _ = run_harness(ctx, "vproto", ["c15", "--behaviours", ctx.path("behaviours.ndjson"), "--menu", ctx.path("menu.ndjson"),
                                               "--random", nrandom, "--out", ctx.path("res.json"), "--traces", ctx.path("traces.ndjson")], timeout=6000)
     res = json.load(open(ctx.path("res.json")))
@@ -150,7 +149,7 @@ def run(ctx):
     groups = {}
     for t in traces:
         groups.setdefault(tuple(t["senders"]), []).append({"ev": t["ev"]})
-    per_group = 70 if quick else 1500
+    per_group = 60 if quick else 800
     recorded = len(traces)
     for k in sorted(groups):
         if len(groups[k]) > per_group:
